@@ -215,8 +215,18 @@ class FilReader(Filterbank):
                 f"read_plan: Reading block {ii}/{nreads}, {block} elements, "
                 f"with skipback={skip}",
             )
-            nbytes = self._file.creadinto(read_buffer, unpack_buffer)
             expected_nbytes = int(block * self.chan_stride)
+            if start + nsamps < self.header.nsamples:
+                # The request ends before the end of the data, so a (shorter)
+                # last block must not fill the whole buffer past the request.
+                nbytes = self._file.creadinto(
+                    memoryview(read_buffer)[:expected_nbytes],
+                    None
+                    if unpack_buffer is None
+                    else memoryview(unpack_buffer)[:block],
+                )
+            else:
+                nbytes = self._file.creadinto(read_buffer, unpack_buffer)
             if nbytes != expected_nbytes:
                 msg = (
                     f"Unexpected number of bytes read from file {nbytes} (actual) "
